@@ -14,5 +14,10 @@ for n in 2048_1 2048_2 3072_1 4096_1; do
   openssl genpkey -algorithm RSA -pkeyopt rsa_keygen_bits:${n%_*} -outform DER -out rsa$n.pkcs1.der
   openssl pkcs8 -topk8 -nocrypt -inform DER -in rsa$n.pkcs1.der -outform DER -out rsa$n.pkcs8.der
 done
+# sizes at and beyond the edges of what the back ends sign with (ring: 2048..=4096 bits, aws-lc-rs: 2048..=8192)
+for n in 1024_1 6144_1 8192_1; do
+  openssl genpkey -algorithm RSA -pkeyopt rsa_keygen_bits:${n%_*} -outform DER -out rsa$n.pkcs1.der
+  openssl pkcs8 -topk8 -nocrypt -inform DER -in rsa$n.pkcs1.der -outform DER -out rsa$n.pkcs8.der
+done
 openssl genpkey -algorithm ED448 -outform DER -out ed448_1.pkcs8.der
 chmod 644 *
